@@ -41,6 +41,8 @@ func tupleVal(t types.Type, vs ...Val) Val {
 }
 
 func (ex *Exec) freshResult(st *State, name string, t types.Type) Val {
+	// an arbitrary result may be (or reach) objects allocated by the call
+	ex.expose(st, exposureOf(t))
 	v := FreshVal("r_"+name, t)
 	ex.typeFacts(st, v)
 	return v
@@ -93,6 +95,12 @@ func (ex *Exec) callWith(fr *Frame, st *State, cc *ssa.CallCommon, fnv Val, args
 		name = "$param." + v.Name()
 	case *ssa.UnOp:
 		switch a := v.X.(type) {
+		case *ssa.Global:
+			// package-level function variable (test seam such as `var timeNowFn = time.Now`): addressed by its
+			// qualified name, so that lib specs can declare it pure / ignore or give it an extern contract
+			if a.Pkg != nil && a.Pkg.Pkg != nil {
+				name = a.Pkg.Pkg.Path() + "." + a.Name()
+			}
 		case *ssa.Alloc:
 			name = "$param." + a.Comment
 		case *ssa.FieldAddr:
@@ -160,9 +168,18 @@ func (ex *Exec) dispatch(fr *Frame, st *State, key string, fn *ssa.Function, fre
 		ex.havocAll(st)
 		ex.havocEscapedLocals(st, args)
 		res = ex.freshResult(st, shortName(key), rt)
+	case ex.eng.isObserverDecl(key):
+		// getter of an environment object: what it returns existed before the call
+		ex.note("getter", key)
+		res = FreshVal("r_"+shortName(key), rt)
+		ex.typeFacts(st, res)
 	case ex.eng.isIgnored(key):
+		// no modelled effect; the result is arbitrary. References it holds directly may be new objects, but an interface
+		// value handed out by an ignored function (loggers, sync.Map contents, recorders) is assumed to hold existing ones
 		ex.note("ignore", key)
-		res = ex.freshResult(st, shortName(key), rt)
+		ex.bumpKeys(st, exposureOf(rt).keys)
+		res = FreshVal("r_"+shortName(key), rt)
+		ex.typeFacts(st, res)
 	case ex.eng.isPure(key):
 		ex.note("pure", key)
 		res = ex.pureCall(st, key, args, rt)
@@ -186,8 +203,9 @@ func (ex *Exec) dispatch(fr *Frame, st *State, key string, fn *ssa.Function, fre
 		}
 		if ws != nil && !ws.top {
 			ex.note("summary", key)
-			ex.bumpWM(st)
+			ex.impure++
 			names := sortedKeys(ws.heaps)
+			ex.expose(st, exposeHeaps(names))
 			for _, n := range names {
 				srt, ok := ex.heapSrt[n]
 				if !ok {
@@ -219,6 +237,19 @@ func (ex *Exec) dispatch(fr *Frame, st *State, key string, fn *ssa.Function, fre
 		}
 		ex.havocEscapedLocals(st, args, ws)
 		res = ex.freshResult(st, shortName(key), rt)
+	}
+	for pat, c := range ex.resCells {
+		if calleeMatches(key, pat) {
+			if c.T == nil {
+				c.T = rt
+			}
+			if len(Layout(c.T)) == len(res.L) {
+				st.cells[c] = Val{T: c.T, L: res.L}
+				if ex.wlog != nil {
+					ex.wlog.cells[c] = true
+				}
+			}
+		}
 	}
 	if fr.con != nil && ex.dry == 0 {
 		for _, ca := range fr.con.Asserts {
@@ -287,7 +318,8 @@ func (ex *Exec) pureCall(st *State, key string, args []Val, rt types.Type) Val {
 	for i, l := range ls {
 		out.L[i] = UF("pure_"+sanitize(key)+"_"+sanitize(l.Path), l.Sort, ts...)
 	}
-	ex.typeFactsPure(st, out)
+	// a pure observer returns something that exists when it is called: references are allocated objects
+	ex.typeFacts(st, out)
 	return out
 }
 
@@ -324,7 +356,29 @@ func (ex *Exec) havocEscapedLocals(st *State, args []Val, ws ...*wset) {
 	if len(ws) > 0 && ws[0] != nil && !ws[0].top {
 		w = ws[0]
 	}
-	for _, a := range args {
+	// closures handed to the callee may run there: the variables they capture (by reference) can change as well
+	work := append([]Val{}, args...)
+	seenClo := map[*Closure]bool{}
+	for i := 0; i < len(work); i++ {
+		if c := work[i].Clo; c != nil && !seenClo[c] {
+			seenClo[c] = true
+			for _, b := range c.Bindings {
+				bb := b
+				bb.Clo = nil
+				work = append(work, bb)
+				if b.Clo != nil {
+					work = append(work, Val{Clo: b.Clo})
+				}
+				if b.Loc != nil && b.Loc.Kind == locCell {
+					// a captured closure variable: look through it
+					if cv, ok := st.cells[b.Loc.Cell]; ok && cv.Clo != nil {
+						work = append(work, Val{Clo: cv.Clo})
+					}
+				}
+			}
+		}
+	}
+	for ai, a := range work {
 		loc := a.Loc
 		if loc == nil && len(a.L) == 1 && ex.ifaceVals != nil {
 			if bv, ok := ex.ifaceVals[a.L[0]]; ok {
@@ -334,13 +388,15 @@ func (ex *Exec) havocEscapedLocals(st *State, args []Val, ws ...*wset) {
 		if loc == nil {
 			continue
 		}
+		captured := ai >= len(args)
 		if loc.Kind == locCell || loc.Prefix != "" || loc.Kind == locElem {
 			if _, isG := loc.Obj.(globalObj); isG {
 				continue
 			}
+			ex.expose(st, exposureOf(loc.T))
 			nv := FreshVal("esc", loc.T)
 			ex.typeFacts(st, nv)
-			if w != nil && !isPseudoType(loc.T) {
+			if w != nil && !isPseudoType(loc.T) && !captured {
 				// only the leaves the callee's write set names (through a pointer of the pointee type) are forgotten
 				cur := ex.load(st, loc)
 				ls := Layout(loc.T)
@@ -371,6 +427,7 @@ func isPseudoType(t types.Type) bool {
 
 // havocAll forgets every heap.
 func (ex *Exec) havocAll(st *State) {
+	ex.impure++
 	names := make([]string, 0, len(ex.heapSrt))
 	for n := range ex.heapSrt {
 		names = append(names, n)
@@ -469,6 +526,11 @@ func (env *SpecEnv) nameResults(sig *types.Signature) {
 func (ex *Exec) callSiteEnv(fr *Frame, st *State, key string, fn *ssa.Function, args []Val, sig *types.Signature) *SpecEnv {
 	env := ex.newEnv(fr.con.PkgPath, st)
 	// the verified function's own parameters and locals are visible, callee arguments as arg0..n / by name with prefix
+	if fr.env0 != nil {
+		for k, v := range fr.env0.vars {
+			env.vars[k] = v // lets (entry values), captured variables, recv
+		}
+	}
 	for k, v := range fr.params {
 		env.vars[k] = v
 	}
@@ -514,7 +576,7 @@ func (ex *Exec) useContract(fr *Frame, st *State, con *Contract, key string, fn 
 	// frame
 	if con.ModInferred && fn != nil && len(fn.Blocks) > 0 && !ex.eng.writeSet(fn).top {
 		ws := ex.eng.writeSet(fn)
-		ex.bumpWM(st)
+		ex.expose(st, exposeHeaps(sortedKeys(ws.heaps)))
 		for _, n := range sortedKeys(ws.heaps) {
 			srt, ok := ex.heapSrt[n]
 			if !ok {
@@ -540,9 +602,18 @@ func (ex *Exec) useContract(fr *Frame, st *State, con *Contract, key string, fn 
 		ex.havocAll(st)
 		ex.havocEscapedLocals(st, args)
 	} else {
-		ex.bumpWM(st)
 		for _, m := range con.Modifies {
 			ex.havocDesignator(envPre, st, m)
+		}
+		// a modifies clause cannot name the caller's locals: what closures passed to the callee capture may change
+		var clos []Val
+		for _, a := range args {
+			if a.Clo != nil {
+				clos = append(clos, Val{Clo: a.Clo})
+			}
+		}
+		if len(clos) > 0 {
+			ex.havocEscapedLocals(st, clos)
 		}
 	}
 	res := ex.freshResult(st, shortName(key), rt)
@@ -552,6 +623,30 @@ func (ex *Exec) useContract(fr *Frame, st *State, con *Contract, key string, fn 
 	envPost.setResults(rt, res)
 	envPost.nameResults(sig)
 	envPost.wmPre = pre.wm
+	{
+		// results the contract declares fresh unconditionally (top-level conjunct fresh(name)) are objects allocated by
+		// the call: register them so that loop write discovery can tell them from objects that existed before
+		var scan func(e *SExpr)
+		scan = func(e *SExpr) {
+			if e == nil {
+				return
+			}
+			if e.Op == "binary" && e.Name == "&&" {
+				for _, a := range e.Args {
+					scan(a)
+				}
+				return
+			}
+			if e.Op == "call" && len(e.Args) == 2 && e.Args[0].Op == "id" && e.Args[0].Name == "fresh" && e.Args[1].Op == "id" {
+				if v, ok := envPost.vars[e.Args[1].Name]; ok && len(v.L) > 0 && v.L[0].op != "int" {
+					ex.markFresh(v.L[0])
+				}
+			}
+		}
+		for _, c := range con.Ensures {
+			scan(c.E)
+		}
+	}
 	ex.bindLets(envPost, con)
 	for _, c := range con.Ensures {
 		if usesCalls(c.E) {
@@ -578,13 +673,21 @@ func (ex *Exec) havocDesignator(envPre *SpecEnv, st *State, d *SExpr) {
 			}
 		}
 		if v.Loc != nil && v.Loc.Kind == locCell {
+			ex.expose(st, exposureOf(v.Loc.T))
 			nv := FreshVal("c_"+v.Loc.Cell.Name, v.Loc.T)
 			ex.typeFacts(st, nv)
 			ex.store(st, v.Loc, nv)
 			return
 		}
 	}
-	for _, hr := range ex.designatorHeaps(envPre, d) {
+	hrs := ex.designatorHeaps(envPre, d)
+	var hnames []string
+	for _, hr := range hrs {
+		hnames = append(hnames, hr.name)
+	}
+	// the callee may store objects it allocated into the locations it may write
+	ex.expose(st, exposeHeaps(hnames))
+	for _, hr := range hrs {
 		srt, ok := ex.heapSrt[hr.name]
 		if !ok {
 			ex.heapGet(st, hr.name, hr.sort)
@@ -900,7 +1003,7 @@ func (ex *Exec) doAppend(st *State, s, xs Val, rt types.Type) Val {
 	}
 	sarr, soff, slen := s.L[0], s.L[1], s.L[2]
 	xarr, xoff, xlen := xs.L[0], xs.L[1], xs.L[2]
-	id := ex.alloc(st)
+	id := ex.alloc(st, "E_"+heapKeyT(el))
 	for _, l := range Layout(el) {
 		name := elemHeapName(el, l.Path)
 		rowS := ArrSort(SInt, l.Sort)
@@ -939,7 +1042,7 @@ func usesCalls(e *SExpr) bool {
 	if e == nil {
 		return false
 	}
-	if e.Op == "call" && e.Args[0].Op == "id" && e.Args[0].Name == "calls" {
+	if e.Op == "call" && e.Args[0].Op == "id" && (e.Args[0].Name == "calls" || e.Args[0].Name == "lastresult") {
 		return true
 	}
 	for _, a := range e.Args {
